@@ -199,3 +199,45 @@ def iban_random(a):
 
 
 HANDLERS.update({"iban.random": iban_random})
+
+
+class RecordingRandom(__import__("random").Random):
+    """random.Random that logs every draw it hands out (same stream as the base class)."""
+
+    def __init__(self, seed):
+        super().__init__(seed)
+        self.draws = []
+
+    def choice(self, seq):
+        r = super().choice(seq)
+        self.draws.append(["choice", len(seq)])
+        return r
+
+    def randint(self, a, b):
+        r = super().randint(a, b)
+        self.draws.append(["randint", a, b, r])
+        return r
+
+
+def _random_call(a, rnd):
+    kw = {k: T(v) for k, v in a.get("vals", {}).items() if k in a.get("pinned", [])}
+    cls = IBAN if a["op"] == "iban.random" else BBAN
+    o = cls.random(T(a.get("country", [])), random=rnd, use_registry=a.get("use_registry", True), **kw)
+    d = {"val": C(str(o)), "cls": type(o).__name__}
+    if cls is BBAN:
+        d["cc"] = C(o.country_code)
+    return d
+
+
+def random_op(a):
+    import random as _r
+    rec = RecordingRandom(a["seed"])
+    d = _random_call(a, rec)
+    d["ndraws"] = len(rec.draws)
+    # the same call with a plain, equally seeded generator must give the same result
+    again = _try(lambda: _random_call(a, _r.Random(a["seed"])))
+    d["again_same"] = again["k"] == "ok" and again["v"]["val"] == d["val"]
+    return d
+
+
+HANDLERS.update({"iban.random": random_op, "bban.random": random_op})
